@@ -22,28 +22,22 @@ func TestC09(t *testing.T) {
 	}
 
 	// long histories first (they dominate the wall time), in parallel with each other
-	t0 := time.Now() // phase timing is logged only, never used by an oracle
-	r.Cases(nLong, 0, func(idx int) { longCase(r, idx) })
-	t.Logf("long phase: %d cases in %.1fs", nLong, time.Since(t0).Seconds())
-	t0 = time.Now()
-	// case indices of the three workloads are disjoint so that --replay finds the case
+	// one case list for the three workloads (long histories first: they dominate the
+	// wall time and overlap with the rest); index ranges are disjoint so that --replay
+	// finds the case
 	const shortBase, stressBase = 1_000, 100_000
-	r.Cases(shortBase+nShort, 0, func(idx int) {
-		if idx < shortBase {
-			return
-		}
-		shortCase(r, idx)
-	})
-	t.Logf("short phase: %d cases in %.1fs", nShort, time.Since(t0).Seconds())
-	t0 = time.Now()
+	t0 := time.Now() // logged only, never used by an oracle
 	r.Cases(stressBase+nStress, 0, func(idx int) {
-		if idx < stressBase {
-			return
+		switch {
+		case idx < nLong:
+			longCase(r, idx)
+		case idx >= shortBase && idx < shortBase+nShort:
+			shortCase(r, idx)
+		case idx >= stressBase:
+			stressCase(r, idx)
 		}
-		stressCase(r, idx)
 	})
-
-	t.Logf("stress phase: %d cases in %.1fs", nStress, time.Since(t0).Seconds())
+	t.Logf("%d long, %d short, %d stress cases in %.1fs", nLong, nShort, nStress, time.Since(t0).Seconds())
 
 	r.Assume("block hashes / transaction hashes used as tags are the ones Blockchain.Finalise and the chain generator computed (C02's business); the oracle recomputes nothing cryptographic")
 	r.Assume("Header.EventsBloom is derived from the receipts by the harness exactly as Juno's adapters do (core.EventsBloom); Store does not verify it")
